@@ -36,6 +36,15 @@ inline void wrapper_sizes(int gzip_flag, size_t &hdr, size_t &trl) {
 	}
 }
 
+// documented worst case of one-shot compression: input + 5 bytes per started 65535-byte stored block (at least one) + wrapper (C10)
+inline size_t stateless_bound(size_t len, int gzip_flag) {
+	size_t hdr, trl;
+	wrapper_sizes(gzip_flag, hdr, trl);
+	size_t blocks = (len + 65534) / 65535;
+	if (blocks < 1) blocks = 1;
+	return len + 5 * blocks + hdr + trl;
+}
+
 struct DefOpts {
 	int level = 0, gzip_flag = 0, hist_bits = 0;
 	int table = IGZIP_HUFFTABLE_DEFAULT;      // DEFAULT / STATIC / CUSTOM
